@@ -93,8 +93,9 @@ pub enum Op {
     HashSelf,
     Random(String),
     Wide(Vec<u8>),
-    /// x = z-coordinate of G1::new(1, x, 1) + G1::new(1, x, 1)  (= 2x: the doubling used inside point arithmetic,
-    /// reached through the public constructor with arbitrary coordinates and the coordinate accessor)
+    /// x = z-coordinate of G1::new(1, x, 1) + G1::new(1, x, 1): a field value produced by the arithmetic inside
+    /// point addition, reached through the public constructor with arbitrary coordinates and the coordinate accessor
+    /// (its VALUE is formula dependent and not checked; it must be fully reduced)
     DoubleViaG1,
 }
 impl Op {
@@ -344,8 +345,11 @@ fn step_fp<F: FpMachine>(s: &St<F>, op: &Op) -> Option<Result<St<F>, Bad>> {
                 t.mx = from_be(&t.x.bytes()) % p;
             }
             Op::DoubleViaG1 => {
+                // WHICH value the z coordinate of a sum holds is not specified by any property (it depends on the
+                // addition formulas); the property only demands that a field value obtained this way is fully reduced.
+                // The model adopts the value, the state invariant checks canonicity / == / is_zero.
                 t.x = lib("G1 doubling", || s.x.double_via_group())?.expect("only in the Fq machine");
-                t.mx = addm(&s.mx, &s.mx, p);
+                t.mx = from_be(&t.x.bytes()) % p;
             }
             Op::Wide(b) => {
                 match lib("from_slice", || F::from_slice_(b))? {
@@ -443,7 +447,7 @@ pub enum Op2 {
     Sqrt,
     NewRealXImagY,
     NewImagXRealX,
-    /// x = z-coordinate of G2::new(1, x, 1) + same (= 2x through the doubling inside point arithmetic)
+    /// x = z-coordinate of G2::new(1, x, 1) + same (value formula dependent and unchecked; must be fully reduced)
     DoubleViaG2,
 }
 impl Op2 {
@@ -582,7 +586,9 @@ fn step2(s: &St2, op: &Op2) -> Option<Result<St2, Bad>> {
                     let p = sm9_core::G2::new(Fq2::one(), s.x, Fq2::one());
                     (p + p).z()
                 })?;
-                t.mx = s.mx.add(&s.mx);
+                // as for the Fq machine: the value is formula dependent, only its canonicity is required
+                let v = fq2v(&t.x);
+                t.mx = F2 { a: v.a % q(), b: v.b % q() };
             }
         }
         Ok(())
